@@ -249,16 +249,17 @@ class LoopCtx:
 
 
 class State:
-    def __init__(self, env=None, facts=None, loops=None, atoms=None):
+    def __init__(self, env=None, facts=None, loops=None, atoms=None, heap=None):
         self.env = dict(env or {})
         self.facts = facts.copy() if facts is not None else Facts()
         self.loops = list(loops or [])
         self.atoms = dict(atoms or {})
+        self.heap = dict(heap or {})  # (id(object value), attribute) -> value
         self.yields = []
         self.notes = []
 
     def copy(self):
-        s = State(self.env, self.facts, self.loops, self.atoms)
+        s = State(self.env, self.facts, self.loops, self.atoms, self.heap)
         s.yields = self.yields  # shared on purpose: yields are collected per call frame
         s.notes = self.notes
         return s
@@ -294,7 +295,7 @@ class Interp:
         """Interpret ``frame.func`` with positional/keyword values bound in ``args``
         (dict name -> value).  Returns list of (state, outcome) traces."""
         st = st or State()
-        st = State({}, st.facts, st.loops, st.atoms)
+        st = State({}, st.facts, st.loops, st.atoms, st.heap)
         st.yields = []
         a = frame.func.args
         params = [p.arg for p in a.posonlyargs + a.args]
@@ -433,6 +434,8 @@ class Interp:
             for val, facts in v.alts:
                 s = st.copy()
                 s.facts = facts
+                if getattr(facts, "heap", None) is not None:
+                    s.heap = dict(facts.heap)
                 bind(s, val)
                 out.append((s, ("fall",)))
             return out
@@ -533,6 +536,7 @@ class Interp:
             base = self.ev(target.value, st, frame)
             if isinstance(base, SelfV):
                 base.attrs[target.attr] = val
+                st.heap[(id(base), target.attr)] = val
                 return
             d = dotted(target)
             if d:
@@ -712,6 +716,8 @@ class Interp:
 
     def getattr(self, base, attr, e, st, frame):
         if isinstance(base, SelfV):
+            if (id(base), attr) in st.heap:
+                return st.heap[(id(base), attr)]
             if attr in base.attrs:
                 return base.attrs[attr]
             if attr in self.self_attrs:
@@ -1054,6 +1060,11 @@ class Interp:
             return NotImplemented
         if any(isinstance(d, ast.Name) and d.id == "contextmanager" for d in fn.decorator_list):
             return NotImplemented
+        return self.inline_fn(module, fn, selfv, defcls, static, args, kwargs, st, frame)
+
+    def inline_fn(self, module, fn, selfv, defcls, static, args, kwargs, st, frame):
+        """Interpret ``fn`` with the given actuals in the caller's state; returns its value
+        (an ``Alt`` if traces disagree) and merges facts / heap of the normal traces into ``st``."""
         a = fn.args
         params = [p.arg for p in a.posonlyargs + a.args]
         bound = {}
@@ -1084,8 +1095,14 @@ class Interp:
         if len(groups) == 1:
             v, states = groups[0]
             st.facts = _facts_meet([s.facts for s in states])
+            st.heap = _heap_join([s.heap for s in states])
             return v
-        return Alt([(v, _facts_meet([s.facts for s in states])) for v, states in groups])
+        alts = []
+        for v, states in groups:
+            f = _facts_meet([s.facts for s in states]).copy()
+            f.heap = _heap_join([s.heap for s in states])
+            alts.append((v, f))
+        return Alt(alts)
 
 
 def _veq(a, b):
@@ -1093,6 +1110,23 @@ def _veq(a, b):
         return a == b
     except Exception:
         return False
+
+
+def _heap_join(heaps):
+    if len(heaps) == 1:
+        return dict(heaps[0])
+    out = {}
+    keys = set()
+    for h in heaps:
+        keys.update(h)
+    for k in keys:
+        vals = []
+        for h in heaps:
+            v = h.get(k, Opq("unset"))
+            if not any(_veq(v, w) for w in vals):
+                vals.append(v)
+        out[k] = vals[0] if len(vals) == 1 else Opq("mixed", vals)
+    return out
 
 
 def _facts_meet(fs):
